@@ -39,6 +39,11 @@ def tables(tier):
         # modifier already held: three clicks fit into three events (a new pick may have to move two slots)
         dict(name="ssi_held", variant="SSI", F=t_ssi, xs=[38, 81, 130], ys=[5, 9, 14], maxlen=3, init_shift=True, keys=[]),
         dict(name="plscf_held", variant="pLSCF", F=t_pl, xs=[38, 81, 130], ys=[1, 5, 9], maxlen=3, init_shift=True, keys=[]),
+        # modifier held at the start and releasable: pick, release, click - a click without the modifier on a non-empty
+        # selection (no effect whatever the button) fits into three events
+        dict(name="ssi_release", variant="SSI", F=t_ssi, xs=[38, 81], ys=[5, 9], maxlen=3, init_shift=True, keys=["shift"]),
+        dict(name="plscf_release", variant="pLSCF", F=t_pl, xs=[38, 81], ys=[1, 5], maxlen=3, init_shift=True, keys=["shift"]),
+        dict(name="fdd_release", variant="FDD", F=fdd, xs=[9, 30], ys=[0], maxlen=3, init_shift=True, keys=["shift"]),
     ]
     if tier == "thorough":
         out = [
